@@ -126,6 +126,9 @@ func guardsOfDepth(x blockOwner, depth int) []Guard {
 	if curProg == nil || depth > 3 || !curProg.isHelper(fn) {
 		return out
 	}
+	if s, ok := siteCtx[fn]; ok {
+		return append(out, guardsOfDepth(s.Instr, depth+1)...)
+	}
 	sites := curProg.helperSites(fn)
 	bindAgreeing(fn, sites)
 	if len(sites) == 1 {
@@ -148,6 +151,10 @@ func lift(in ssa.Instruction, to *ssa.Function) ssa.Instruction {
 		}
 		if curProg == nil || !curProg.isHelper(f) {
 			return nil
+		}
+		if s, ok := siteCtx[f]; ok {
+			in = s.Instr
+			continue
 		}
 		sites := curProg.helperSites(f)
 		if len(sites) != 1 {
@@ -246,4 +253,123 @@ func through(v ssa.Value) ssa.Value {
 		v = results(rets[0].(*ssa.Return))[0]
 	}
 	return v
+}
+
+// delegateOf: fn is a thin wrapper - one block whose only call into non-logging module code is a call of a
+// helper - returns that helper with its parameters bound to this call's arguments, and the helper's
+// parameter that receives fn's parameter `follow` (nil when it is not passed on). Otherwise (fn, follow).
+func (p *Prog) delegateOf(fn *ssa.Function, follow *ssa.Parameter) (*ssa.Function, *ssa.Parameter) {
+	if fn == nil || len(fn.Blocks) != 1 || curProg == nil {
+		return fn, follow
+	}
+	var calls []*ssa.CallCommon
+	other := false
+	for _, in := range fn.Blocks[0].Instrs {
+		switch x := in.(type) {
+		case ssa.CallInstruction:
+			if callee := x.Common().StaticCallee(); callee != nil && skipPkg(callee) {
+				continue
+			}
+			if _, isB := x.Common().Value.(*ssa.Builtin); isB {
+				continue
+			}
+			calls = append(calls, x.Common())
+		case *ssa.Store, *ssa.MapUpdate:
+			other = true
+		}
+	}
+	if other || len(calls) != 1 {
+		return fn, follow
+	}
+	h := calls[0].StaticCallee()
+	if h == nil || !p.isHelper(h) {
+		return fn, follow
+	}
+	bindCall(h, calls[0].Args)
+	var to *ssa.Parameter
+	for i, a := range calls[0].Args {
+		if follow != nil && strip(a) == ssa.Value(follow) && i < len(h.Params) {
+			to = h.Params[i]
+		}
+	}
+	// strip() resolves bound parameters, so a follow-parameter bound to fn's own parameter stays usable
+	return h, to
+}
+
+// siteCtx selects, for a helper with several call sites, the call site under which it is currently being
+// looked at (set by virtualCalls): guards, dominance and parameter values are then those of that site.
+var siteCtx = map[*ssa.Function]Site{}
+
+// virtualCalls visits every call of target made on behalf of fn: the calls in fn itself and, for each call
+// site of a helper of fn's family that (transitively) calls target, the call inside the helper seen under that
+// site (parameters bound to the site's arguments, guards/dominance lifted to that site). A helper used from two
+// places with different arguments (`c.bufferAndWatch(data)` / `c.bufferAndWatch(data[sent:])`) thus yields two
+// virtual calls.
+func (p *Prog) virtualCalls(fn *ssa.Function, targets []*ssa.Function, f func(call ssa.CallInstruction)) {
+	isTarget := func(ci ssa.CallInstruction) bool {
+		fns, _ := p.calleesOf(ci.Common())
+		for _, g := range fns {
+			for _, t := range targets {
+				if t != nil && p.declared(g) == p.declared(t) {
+					return true
+				}
+			}
+		}
+		return false
+	}
+	var visit func(g *ssa.Function, depth int)
+	visit = func(g *ssa.Function, depth int) {
+		withClosures(g, func(h *ssa.Function) {
+			allInstrs(h, func(in ssa.Instruction) {
+				ci, ok := in.(ssa.CallInstruction)
+				if !ok {
+					return
+				}
+				if isTarget(ci) {
+					f(ci)
+					return
+				}
+				callee := ci.Common().StaticCallee()
+				if callee == nil || depth >= 3 || !p.isHelper(callee) {
+					return
+				}
+				if _, busy := siteCtx[callee]; busy {
+					return
+				}
+				site := Site{Fn: h, Instr: in, Call: ci.Common(), Kind: "call"}
+				siteCtx[callee] = site
+				withBinding(callee, ci.Common().Args, func() { visit(callee, depth+1) })
+				delete(siteCtx, callee)
+			})
+		})
+	}
+	visit(fn, 0)
+}
+
+// virtualInstrs visits every instruction executed on behalf of fn: its own and, for each call site of a helper of
+// its family, the helper's instructions seen under that site (see virtualCalls).
+func (p *Prog) virtualInstrs(fn *ssa.Function, f func(in ssa.Instruction)) {
+	var visit func(g *ssa.Function, depth int)
+	visit = func(g *ssa.Function, depth int) {
+		withClosures(g, func(h *ssa.Function) {
+			allInstrs(h, func(in ssa.Instruction) {
+				f(in)
+				ci, ok := in.(ssa.CallInstruction)
+				if !ok {
+					return
+				}
+				callee := ci.Common().StaticCallee()
+				if callee == nil || depth >= 3 || !p.isHelper(callee) {
+					return
+				}
+				if _, busy := siteCtx[callee]; busy {
+					return
+				}
+				siteCtx[callee] = Site{Fn: h, Instr: in, Call: ci.Common(), Kind: "call"}
+				withBinding(callee, ci.Common().Args, func() { visit(callee, depth+1) })
+				delete(siteCtx, callee)
+			})
+		})
+	}
+	visit(fn, 0)
 }
